@@ -61,6 +61,15 @@ def make_collection(tracks):
     out, tag = [], 0
     for pts in tracks:
         tr = Track([Obs(ENUCoords(float(x), float(y), 0.0), ObsTime()) for (x, y, v) in pts])
+        # the tracks of a collection need not store their features in the same order: every other track has an extra
+        # feature first and creates 'v' before 'tag'
+        if len(out) % 2:
+            tr.createAnalyticalFeature("extra", [1000.0 + k for k in range(len(pts))])
+            tr.createAnalyticalFeature("v", [float("nan") if v is None else float(v) for (x, y, v) in pts])
+            tr.createAnalyticalFeature("tag", [float(tag + k + 1) for k in range(len(pts))])
+            tag += len(pts)
+            out.append(tr)
+            continue
         tr.createAnalyticalFeature("tag", [float(tag + k + 1) for k in range(len(pts))])
         tr.createAnalyticalFeature("v", [float("nan") if v is None else float(v) for (x, y, v) in pts])
         tag += len(pts)
